@@ -116,18 +116,35 @@ def outcomes(prog, eff, b):
             if x is not None and x[0] == 'call':
                 # `X?` where X is itself a combinator chain (x.ok_or(e)?): its failure alternatives are what is returned here
                 sub = _combinators(prog, eff, b, p2, x, 0)
-                errs = [a for a in sub if deep_strip(a[1])[0] == 'agg' and deep_strip(a[1])[2] == 'Err']
+                errs = [a for a in sub if deep_strip(a[1])[0] == 'agg' and deep_strip(a[1])[2] in ('Err', 'None')]
                 if errs and all(deep_strip(a[1])[0] == 'agg' for a in sub):
                     out.extend(errs)
+                    continue
+                # `X?` on an opaque fallible call: the failure of X is returned (None for an Option, Err(e) for a Result)
+                d2 = deep_strip(t2)
+                tys = " ".join(str(s) for s in (d2[3] if len(d2) > 3 else ()))
+                if "option::Option<" in tys and "result::Result<" not in tys.split("option::Option<")[0]:
+                    out.append((p2, ('agg', _ADT["Option"], 'None', ()), (('discr', x, 0),)))
                     continue
             out.extend(_combinators(prog, eff, b, p2, t2, 0))
     return out
 
 
-def facts_of(b, o):
+def facts_of(b, o, prog_eff=None):
     from .mir import rels_of_bool
     pos, _t, extra = o
     out = list(b.facts_at(pos))
+    if prog_eff is not None:
+        prog, eff = prog_eff
+        for r in list(out):
+            # `chain?` succeeded: what the chain's one success alternative requires holds (x.ok().filter(p).ok_or(e)? => p(v) is true)
+            if r[0] == 'discr' and r[2] == 0 and deep_strip(r[1])[0] == 'call' and canon(deep_strip(r[1])[1]).endswith("Try::branch"):
+                chain = deep_strip(deep_strip(r[1])[2][0])
+                if chain[0] == 'call':
+                    alts = _combinators(prog, eff, b, pos, chain, 0)
+                    oks = [a for a in alts if deep_strip(a[1])[0] == 'agg' and deep_strip(a[1])[2] in ('Ok', 'Some')]
+                    if len(oks) == 1 and all(deep_strip(a[1])[0] == 'agg' for a in alts):
+                        extra = tuple(extra) + tuple(oks[0][2])
     for r in extra:
         if r[0] == 'bool':
             out.extend(rels_of_bool(r[1], r[2]))
